@@ -105,7 +105,20 @@ fn gen_json_schema(rng: &mut Rng, depth: usize) -> serde_json::Value {
 /// a sub-schema with no instance, written so that each part is satisfiable on its own
 fn gen_empty_schema(rng: &mut Rng) -> serde_json::Value {
     use serde_json::json;
-    match rng.below(8) {
+    match if rng.chance(1, 3) { 8 } else { rng.below(13) } {
+        // numeric: bounds and multipleOf that are satisfiable separately but have no common value
+        8 => {
+            // an integer range that holds a fractional multiple only (6..9 and 2.5)
+            let (lo, hi, m) = *rng.pick(&[(6, 9, 2.5), (1, 2, 1.5), (8, 14, 7.5), (11, 12, 2.5), (-9, -6, 2.5), (9, 11, 0.8), (5, 7, 0.8), (7, 9, 1.2), (-11, -9, 0.8), (13, 14, 1.2)]);
+            json!({"type": "integer", "minimum": lo, "maximum": hi, "multipleOf": m})
+        }
+        9 => {
+            let (lo, hi, m) = *rng.pick(&[(1.1, 1.4, 0.5), (0.26, 0.49, 0.25), (-0.9, -0.1, 1.0), (10.5, 11.5, 4.0)]);
+            json!({"type": "number", "minimum": lo, "maximum": hi, "multipleOf": m})
+        }
+        10 => json!({"type": "integer", "exclusiveMinimum": 3, "exclusiveMaximum": 4}),
+        11 => json!({"allOf": [{"type": "integer", "minimum": 0, "maximum": 5}, {"type": "integer", "minimum": 6, "maximum": 9}]}),
+        12 => json!({"type": "integer", "minimum": 1, "maximum": 5, "multipleOf": 6}),
         0 => json!({"allOf": [{"const": "a"}, {"const": "b"}]}),
         1 => json!({"allOf": [{"enum": ["x", "y"]}, {"enum": ["z", "w"]}]}),
         2 => json!({"allOf": [{"type": "string", "pattern": "^a+$"}, {"type": "string", "pattern": "^b+$"}]}),
@@ -122,12 +135,13 @@ fn gen_empty_schema(rng: &mut Rng) -> serde_json::Value {
 fn gen_optional_empty_schema(rng: &mut Rng) -> serde_json::Value {
     use serde_json::json;
     let e = gen_empty_schema(rng);
-    match rng.below(5) {
-        0 => json!({"type": "object", "properties": {"n": {"type": "integer", "minimum": 0, "maximum": 9}, "t": e}, "required": ["n"], "additionalProperties": false}),
-        1 => json!({"type": "object", "properties": {"t": e, "n": {"type": "boolean"}}, "additionalProperties": false}),
+    // the optional property comes first, so that its key is a few bytes from the start
+    match rng.below(6) {
+        0 => json!({"type": "object", "properties": {"t": e, "n": {"type": "integer", "minimum": 0, "maximum": 9}}, "required": ["n"], "additionalProperties": false}),
+        1 | 5 => json!({"type": "object", "properties": {"t": e, "n": {"type": "boolean"}}, "additionalProperties": false}),
         2 => json!({"type": "array", "items": e, "maxItems": 2}),
         3 => json!({"anyOf": [e, {"type": "null"}]}),
-        _ => json!({"type": "object", "properties": {"k": {"anyOf": [e, {"const": 0}]}, "t": gen_empty_schema(rng)}, "required": ["k"], "additionalProperties": false}),
+        _ => json!({"type": "object", "properties": {"t": gen_empty_schema(rng), "k": {"anyOf": [e, {"const": 0}]}}, "required": ["k"], "additionalProperties": false}),
     }
 }
 
@@ -275,7 +289,7 @@ pub fn run(rng: &mut Rng, out: &mut Out, tier: &str) {
         let mut r = rng.fork(i as u64);
         let (ws, eos) = if r.chance(1, 3) { single_byte_vocab() } else { gen_engine_vocab(&mut r, 30) };
         let env = make_env(&ws, eos, false);
-        if i % 10 == 7 {
+        if i % 5 == 2 {
             // an unsatisfiable sub-schema in an optional position: every reachable state explored
             let mut sc = gen_optional_empty_schema(&mut r);
             // without optional whitespace the exhaustive completion search is conclusive (a state that
